@@ -4,6 +4,7 @@ import (
 	"bytes"
 
 	"github.com/hashicorp/raft"
+	wal "github.com/hashicorp/raft-wal"
 
 	"harness/vrt"
 )
@@ -18,6 +19,24 @@ func HarnessSizes() {
 	width := vrt.Param("width", 17)
 	seg := vrt.Param("seg", 256)
 	L := center + vrt.Choice("size", width)
+	if vrt.Param("enc", 0) == 1 {
+		// center/width name the ENCODED size of the entry (what the segment frame carries and
+		// what MaxEntrySize limits): subtract the codec's overhead for this entry shape
+		var c wal.BinaryCodec
+		var b bytes.Buffer
+		probe := raft.Log{Index: 1, Term: 1, Data: make([]byte, 300)}
+		if c.Encode(&probe, &b) != nil {
+			return
+		}
+		over := b.Len() - 300 // header fields + a 2-byte length varint
+		for x := L >> 14; x > 0; x >>= 7 {
+			over++ // one more varint byte per 7 bits of length above 2^14
+		}
+		L -= over
+		if L < 0 {
+			return
+		}
+	}
 	e := newEnv(seg)
 	err := e.open()
 	vrt.Assert("C15.open-ok", err == nil)
@@ -35,7 +54,7 @@ func HarnessSizes() {
 	small := vrt.Bytes("small", 2)
 	var logs []*raft.Log
 	bigIdx := uint64(1)
-	switch vrt.Choice("shape", 3) {
+	switch vrt.Param("shape0", 0) + vrt.Choice("shape", vrt.Param("shapes", 4)) {
 	case 0:
 		logs = []*raft.Log{{Index: 1, Term: 1, Data: big}}
 	case 1:
@@ -43,13 +62,30 @@ func HarnessSizes() {
 		bigIdx = 2
 	case 2:
 		logs = []*raft.Log{{Index: 1, Term: 1, Data: big}, {Index: 2, Term: 1, Data: small}}
+	case 3:
+		// the big entry alone in a batch that is not the first of its segment file
+		if e.L.StoreLog(&raft.Log{Index: 1, Term: 1, Data: small}) != nil {
+			vrt.Assert("C15.first-small-append-ok", false)
+			return
+		}
+		vrt.Quiesce()
+		logs = []*raft.Log{{Index: 2, Term: 1, Data: big}}
+		bigIdx = 2
+		vrt.Reach("second-batch")
 	}
 	err = e.L.StoreLogs(logs)
 	if err != nil {
-		// refusing is allowed; acknowledging something unreadable is not
+		// refusing is allowed; acknowledging something unreadable is not. A refusal must leave
+		// the log as it was and usable.
 		vrt.Reach("refused")
+		last, lerr := e.L.LastIndex()
+		vrt.Assert("C15.refused-batch-leaves-no-trace", lerr == nil && last == logs[0].Index-1)
+		vrt.Assert("C15.usable-after-refusal", e.L.StoreLog(&raft.Log{Index: logs[0].Index, Term: 1, Data: small}) == nil)
+		var out raft.Log
+		vrt.Assert("C15.usable-after-refusal.read", e.L.GetLog(logs[0].Index, &out) == nil && bytes.Equal(out.Data, small))
 		return
 	}
+	vrt.Reach("acknowledged")
 	vrt.Quiesce()
 	check := func(tag string) {
 		var out raft.Log
@@ -58,7 +94,7 @@ func HarnessSizes() {
 		if gerr == nil {
 			vrt.Assert("C15."+tag+".acknowledged-entry-identical", bytes.Equal(out.Data, big))
 		}
-		if len(logs) == 2 {
+		if len(logs) == 2 || bigIdx == 2 {
 			var o2 raft.Log
 			other := uint64(3) - bigIdx
 			gerr = e.L.GetLog(other, &o2)
@@ -66,8 +102,20 @@ func HarnessSizes() {
 		}
 	}
 	check("live")
+	if vrt.Param("reopenfirst", 1) == 1 && vrt.Bool("reopen-first") {
+		// close and reopen while the batch holding the big entry is the LAST commit of the tail:
+		// tail recovery re-validates exactly that batch
+		vrt.Assert("C15.close-ok", e.L.Close() == nil)
+		err = e.open()
+		vrt.Assert("C15.reopen-ok", err == nil)
+		if err != nil {
+			return
+		}
+		check("reopened-as-last-batch")
+		vrt.Reach("reopened-as-last-batch")
+	}
 	// one more append after it (crossing into the next segment if this one sealed)
-	err = e.L.StoreLog(&raft.Log{Index: uint64(len(logs)) + 1, Term: 1, Data: small})
+	err = e.L.StoreLog(&raft.Log{Index: logs[len(logs)-1].Index + 1, Term: 1, Data: small})
 	vrt.Assert("C15.append-after-ok", err == nil)
 	vrt.Quiesce()
 	check("after-next-append")
